@@ -229,6 +229,18 @@ func buildGrammar() {
 		a.SequenceKeyDelta, b.SequenceKeyDelta = []uint64{1}, []uint64{2}
 		return wr([]*proto.PutRequest{a, b}, nil, nil)
 	})
+	// a request whose first operations succeed before a later sequence put is refused: nothing of it may stay
+	add("seqput", "put(a)+seqput(p,pk,[1])", true, func() *proto.WriteRequest {
+		b := put("p", "v")
+		b.PartitionKey, b.SequenceKeyDelta = oxh.Str("p"), []uint64{1}
+		return wr([]*proto.PutRequest{put("a", "x"), b}, nil, nil)
+	})
+	add("seqput", "seqput(p,pk,[1])+seqput(p,pk,[2^64-1])", true, func() *proto.WriteRequest {
+		a, b := put("p", "v1"), put("p", "v2")
+		a.PartitionKey, b.PartitionKey = oxh.Str("p"), oxh.Str("p")
+		a.SequenceKeyDelta, b.SequenceKeyDelta = []uint64{1}, []uint64{math.MaxUint64}
+		return wr([]*proto.PutRequest{a, b}, nil, nil)
+	})
 	add("seqput", "seqput(q/s,pk,[1])", true, func() *proto.WriteRequest {
 		a := put("q/s", "v")
 		a.PartitionKey, a.SequenceKeyDelta = oxh.Str("q"), []uint64{1}
